@@ -258,3 +258,93 @@ func (c10) Class(e Ev) string {
 	d := asMap(e["d"])
 	return fmt.Sprintf("%s/t%02x/%s/closed%d/open%d", GS(e["op"]), GI(d["type"]), GS(e["res"]), len(GIs(e["closed"])), len(GIs(e["open"])))
 }
+
+// ---- B2: replay of TLC-generated behaviours (Sim_C10) on a real State ----
+
+func (c10) Table(rows []Ev, tier string, seed int64, rep *TableReport) {
+	r := rand.New(rand.NewSource(seed))
+	for bi, row := range rows {
+		steps := toList(row["steps"])
+		st := scte35.NewState()
+		objs := map[string]scte35.SegmentationDescriptor{}
+		idOf := map[scte35.SegmentationDescriptor]string{}
+		key := func(v interface{}) string { return fmt.Sprint(v) }
+		ids := func(ds []scte35.SegmentationDescriptor) []string {
+			out := []string{}
+			for _, d := range ds {
+				out = append(out, idOf[d])
+			}
+			return out
+		}
+		want := func(v interface{}) []string {
+			out := []string{}
+			for _, x := range toList(v) {
+				out = append(out, key(x))
+			}
+			return out
+		}
+		for si, sx := range steps {
+			s := asMap(sx)
+			dm := asMap(s["d"])
+			k := key(dm["id"])
+			d, ok := objs[k]
+			if !ok {
+				a := absDesc{Type: GI(dm["type"]), Eid: GI(dm["eid"]), HasPTS: GBool(dm["haspts"]), PTS: uint64(GI(dm["pts"])) * 90000,
+					SegNum: GI(dm["segnum"]), SegExp: GI(dm["segexp"])}
+				m := absToEv(a)
+				m["vss"] = GS(dm["vss"])
+				d = c10MkObj(m, r)
+				objs[k] = d
+				idOf[d] = k
+			}
+			var closed []scte35.SegmentationDescriptor
+			var err error
+			res := "ok"
+			var open []scte35.SegmentationDescriptor
+			pan := guard(func() {
+				switch GS(s["op"]) {
+				case "process":
+					closed, err = st.ProcessDescriptor(d)
+					switch err {
+					case gots.ErrSCTE35UnsupportedSpliceCommand:
+						res = "nopts"
+					case gots.ErrSCTE35DuplicateDescriptor:
+						res = "dup"
+					case gots.ErrVSSSignalIdNotFound:
+						res = "vsserr"
+					}
+				case "close":
+					closed, err = st.Close(d)
+					if err != nil {
+						res = "notfound"
+					}
+				}
+				open = st.Open()
+			})
+			rep.Compared++
+			reason := ""
+			switch {
+			case pan != "":
+				reason = "replay-" + pan
+			case res != GS(s["res"]):
+				reason = fmt.Sprintf("replay-%s-result-%s-expected-got-%s", GS(s["op"]), GS(s["res"]), res)
+			case fmt.Sprint(ids(closed)) != fmt.Sprint(want(s["closed"])):
+				reason = "replay-" + GS(s["op"]) + "-closed-list"
+			case fmt.Sprint(ids(open)) != fmt.Sprint(want(s["open"])):
+				reason = "replay-" + GS(s["op"]) + "-open-list"
+			}
+			rep.Classes[fmt.Sprintf("replay/%s/t%02x/%s", GS(s["op"]), GI(dm["type"]), GS(s["res"]))]++
+			if reason != "" {
+				if len(rep.Mismatches) < 50 {
+					rep.Mismatches = append(rep.Mismatches, Ev{"op": "behaviour", "reason": reason, "behaviour": bi, "step": si, "steps": steps[:si+1],
+						"got_res": res, "got_closed": ids(closed), "got_open": ids(open)})
+				}
+				break
+			}
+		}
+	}
+	rep.Note = "TLC-simulated behaviours of Scte35State (depth 12, ring never evicts because the alphabet has two signal times) replayed step by step on a real scte35.State"
+	if len(rows) > 0 {
+		rep.Samples = []Ev{{"behaviour": toList(rows[0]["steps"])[:3]}}
+	}
+}
